@@ -117,6 +117,7 @@ def run(F, R, ctx):
     arg_conversion_rule(F, R)
     select_rule(F, R)
     native_entry_arity_rule(F, R)
+    lookahead_cursor_rule(F, R)
     # ---- c
     nat = natives(F)
     R.floor("C07.c", "native primitives", len(nat), 400)
@@ -509,3 +510,52 @@ def native_entry_arity_rule(F, R):
                        "ByteCodeLambda.arity dominates the call (or the construction of the closure making it): a callback "
                        "with the wrong number of parameters indexes operand-stack slots that were never pushed — host panic "
                        "instead of an arity error" % (cf.short(), lib.split_path(fn.name)[-1], cb["line"]), cf.loc(cb["line"]))
+
+
+def lookahead_cursor_rule(F, R):
+    R.rule("C07.k", "the look-ahead cursor of an input port never underflows (guard-idiom census over Peekable, the buffer behind "
+                    "peek-char / read-char / read-byte on file, pipe and bytevector ports): every subtraction from "
+                    "Peekable.idx takes away (a) a constant under a dominating comparison of idx with it, (b) the result of "
+                    "min(_, idx), or (c) the length std reports for the invalid UTF-8 sequence found in peek[..idx] "
+                    "(Utf8Error::error_len's Some payload, nothing else) — a quantity not bounded by idx (the buffer's "
+                    "capacity, a default for the None case) makes peek-char panic on a stream that ends inside a multi-byte "
+                    "character")
+    n = 0
+    for name, fn in sorted(F.fns.items()):
+        if not re.match(r"steel::values::port::\{impl Peekable<R>\}::", name):
+            continue
+        maps = None
+        for i, j, e in fn.events("binop"):
+            if e[1] not in ("Sub", "SubWithOverflow") or e[2] != "usize" or not re.search(r"\.idx\)?$", str(e[5])):
+                continue
+            n += 1
+            sub = str(e[6])
+            key = "%s / idx -= %s (line %s)" % (fn.short(), "constant" if sub.startswith("const:") else "a computed length", e[3])
+            if sub.startswith("const:"):
+                dom = fn.dominators()
+                def _tests_idx(blk):
+                    idx_locals = {ev[1] for ev in blk["e"] if ev[0] == "mv" and re.search(r"\.idx\)?$", str(ev[2]))}
+                    return any(ev[0] == "binop" and ev[1] in ("Gt", "Ge", "Lt", "Le", "Ne", "Eq") and
+                               (re.search(r"\.idx", str(ev[5]) + str(ev[6])) or str(ev[5]) in idx_locals or str(ev[6]) in idx_locals)
+                               for ev in blk["e"])
+                ok = any(fn.blocks[d]["k"] == "switch" and _tests_idx(fn.blocks[d]) for d in dom.get(i, ()))
+                why = "constant without a dominating test of idx"
+            else:
+                if maps is None:
+                    maps = _backward(fn)
+                toks = lib.TOK.findall(sub)
+                org = set()
+                for t_ in toks:
+                    org |= _origins(fn, t_, maps)
+                calls = [maps[2][o.split(".")[0]]["callee"] for o in org if o.split(".")[0] in maps[2]]
+                is_min = any(re.search(r"::min$", c) for c in calls)
+                is_errlen = any(re.search(r"Utf8Error\}::error_len$", c) for c in calls)
+                other = [c for c in calls if re.search(r"::(unwrap_or|unwrap_or_else|unwrap_or_default|len|max|capacity)$", c)]
+                ok = is_min or (is_errlen and not other)
+                why = "computed from %s" % ", ".join(sorted(set(lib.split_path(c)[-1] for c in calls))[:5])
+            R.inst("C07.k", key, ok,
+                   "%s subtracts from the look-ahead cursor a quantity that is not bounded by it (%s, line %s): when the stream "
+                   "ends inside a multi-byte UTF-8 sequence the cursor holds 1–3 and the subtraction underflows — peek-char "
+                   "panics (aborts under the JIT) instead of yielding the replacement character" % (fn.short(), why, e[3]),
+                   fn.loc(e[3]), sample=True)
+    R.floor("C07.k", "subtractions from Peekable.idx", n, 3)
